@@ -162,8 +162,13 @@ fn gen_many_lines_text(rng: &mut Rng, ascii: bool) -> String {
   s
 }
 
-/// 8-20 KiB of text (size thresholds of buffers / fast paths).
+/// 8-20 KiB of text (size thresholds of buffers / fast paths); one in four
+/// (not under Miri) is a text beyond the 16-bit range instead: one line of
+/// more than 65 535 bytes (minified bundles), or more than 65 535 lines.
 fn gen_huge_text(rng: &mut Rng, ascii: bool) -> String {
+  if !cfg!(miri) && rng.chance(1, 4) {
+    return gen_beyond_u16_text(rng, ascii);
+  }
   let target = *rng.pick(&[8192usize, 8200, 10000, 20000]);
   let mut s = String::with_capacity(target + 16);
   while s.len() < target {
@@ -175,6 +180,51 @@ fn gen_huge_text(rng: &mut Rng, ascii: bool) -> String {
       3 if !ascii => s.push_str(*rng.pick(MULTI)),
       _ => {}
     }
+  }
+  s
+}
+
+fn gen_beyond_u16_text(rng: &mut Rng, ascii: bool) -> String {
+  let target = *rng.pick(&[65_530usize, 65_600, 66_000, 70_000, 131_100]);
+  let mut s = String::with_capacity(target + 16);
+  if rng.chance(1, 3) {
+    // many short lines
+    while s.len() < target {
+      match rng.below(8) {
+        0 => s.push_str(*rng.pick(ASCII_WORDS)),
+        1 if !ascii => s.push_str(*rng.pick(MULTI)),
+        _ => {}
+      }
+      s.push('\n');
+    }
+    if rng.chance(1, 2) {
+      s.push_str("end");
+    }
+    return s;
+  }
+  // one or two giant lines, a short line before them now and then
+  if rng.chance(1, 3) {
+    s.push_str("x = 1;\n");
+  }
+  let split = rng.chance(1, 3).then(|| rng.range(1000, target - 1000));
+  let mut split_done = false;
+  while s.len() < target {
+    s.push_str(*rng.pick(ASCII_WORDS));
+    match rng.below(16) {
+      0 => s.push(';'),
+      1 => s.push(' '),
+      2 if !ascii => s.push_str(*rng.pick(MULTI)),
+      _ => {}
+    }
+    if let Some(at) = split {
+      if s.len() >= at && !split_done {
+        s.push_str("\nQ");
+        split_done = true;
+      }
+    }
+  }
+  if rng.chance(1, 2) {
+    s.push('\n');
   }
   s
 }
@@ -322,7 +372,14 @@ pub fn gen_consistent_map(
   for _ in 0..nsrc {
     if identity_idx.is_none() && rng.chance(1, 2) {
       identity_idx = Some(sources.len() as u32);
-      sources.push(format!("gen{}.js", pool.counter));
+      // mostly a relative name; absolute and dot-relative spellings too
+      // (joined verbatim with a sourceRoot, whatever the root ends in)
+      sources.push(match rng.below(12) {
+        0 => format!("/gen{}.js", pool.counter),
+        1 => format!("./gen{}.js", pool.counter),
+        2 => format!("/abs/../gen{}.js", pool.counter),
+        _ => format!("gen{}.js", pool.counter),
+      });
       contents.push(text.to_string());
     } else {
       let (name, content) = rng.pick(&pool.shared).clone();
